@@ -50,10 +50,24 @@ CLAIMED = {
         "quick_timeout": 1200,
         "thorough_timeout": 21600,
     },
+    "C15": {
+        "engine": "rng-seam-ode",
+        "category": "exploration",
+        "technique": "deterministic simulation of the hidden nondeterminism source: the process-global NumPy RNG behind solve_ode_bvp's default guess is served by the simulator (adversarial legal draws, prior-history perturbation, exact repeats) over manufactured ODE problems with known solutions",
+        "text": "NARROW SCOPE. C15 quantifies over all ODEs, boundary data and transforms - an input space this technique does not decide. What simulation decides is the clause the "
+        "property silently contains: solve_ode_bvp draws its default initial guess from the process-global RNG, so the result must be the solution for every admissible draw "
+        "(incl. all-zero, all-(1-eps), alternating, spike, ramp), for every prior RNG history, with a transform object shared between solves, and equal draws must give "
+        "bit-equal output. Manufactured ODE problems (order 1-3, 11 transform families, admitted by an independent reference solve) are the workload that makes the seam "
+        "observable; a wrong coefficient transformation trips the accuracy oracle as a by-product (it found HandyModRTransform.deriv3), but coverage of the ODE space is sampling.",
+        "design_ref": "DESIGN.md section 3 (C15)",
+        "note": "Accuracy envelope 2000*tol*scale calibrated on this tree (max seen 64*tol over 11 200 runs, 30x margin); increasing maps only; HyperbolicRTransform excluded (its validity depends on array length); "
+        "IVP solves run in the same histories with a loose envelope but the IVP clauses are not claimed as decided.",
+        "quick_timeout": 900,
+        "thorough_timeout": 14400,
+    },
 }
 
 PLANNED = {
-    "C15": "claimed narrowly in DESIGN.md (rng-seam engine); check not built yet in this commit",
     "C16": "claimed narrowly in DESIGN.md (rng-seam engine); check not built yet in this commit",
 }
 
@@ -108,6 +122,7 @@ def main():
         "engines": [
             {"name": "cache-history", "path": "engines/cache_history.py", "serves_properties": ["C19"], "kind_free_text": "deterministic simulation of call histories + store faults + scheduled caller threads"},
             {"name": "caller-env", "path": "engines/caller_env.py", "serves_properties": ["C20"], "kind_free_text": "deterministic simulation of caller memory and callbacks with enumerated cancellation points"},
+            {"name": "rng-seam-ode", "path": "engines/rng_seam.py", "serves_properties": ["C15"], "kind_free_text": "deterministic simulation of the global-RNG seam behind the BVP solver's default guess"},
             {"name": "grid-history", "path": "engines/grid_history.py", "serves_properties": ["C10"], "kind_free_text": "deterministic simulation of query/reassignment/selection histories on live grid objects"},
         ],
         "checks": [check_entry(pid, CLAIMED[pid]) for pid in sorted(CLAIMED)],
